@@ -447,6 +447,13 @@ func (c *lifeCase) esmRedeem() {
 	if c.r.chance(10) {
 		app = c.apps[c.r.intn(len(c.apps))]
 	}
+	// the esm BeginBlocker reaches this step only for apps that have an ESM status record; give the app one
+	// (shutdown not executed) when it has none, so that the keeper function's own body is what is exercised
+	if _, found := a.EsmKeeper.GetESMStatus(c.ctx, app); !found {
+		a.EsmKeeper.SetESMStatus(c.ctx, esmtypes.ESMStatus{AppId: app, Status: false, EndTime: c.now, SnapshotStatus: false})
+		c.tr.p("op esm %d 0 %d 0 ok", app, c.now.Unix())
+		c.obsLife()
+	}
 	esmData, _ := a.EsmKeeper.GetESMTriggerParams(c.ctx, app)
 	cctx, write := c.ctx.CacheContext()
 	var err error
